@@ -24,6 +24,49 @@ CHECKS = {
     ),
 }
 
+TECH = "contract-based deductive verification: ast->VC generator (pyvc) + z3, sidecar contracts"
+COMMON_NOTE = ("A1 Python-subset semantics of the generator; A11 z3; a native run of the same contracts on small inputs "
+               "cross-checks the engine and serves as refuter each run (bounded, not counted). ")
+CHECKS["C01"] = dict(
+    category="proof",
+    text=("Proved for all inputs: the macro table operations of Platform (define keeps the first definition, undefine "
+          "removes, is_defined/get_macro read it) and the visitor closure `associator` of ParserState.associate against "
+          "the ISO C 6.10.1 conditional-stack semantics per node (attribution before every early return, push/replace/"
+          "pop discipline, exactly one branch of a chain, #elif/#else after a taken branch skipped without evaluation, "
+          "node evaluated with the visitor's own platform object), plus the node-role table read from the class "
+          "hierarchy. The composition tree-build + pruned visit == flat conditional stack is NOT proved: it is a "
+          "bounded stand-in (every well-nested sequence of <=5 (quick) / <=7 (thorough) lines over 13 directive kinds, "
+          "X predefined or not, real finder.find against a reference stack), labelled bounded in the evidence."),
+    design_ref="DESIGN.md section 5 C01, section 9",
+    note=COMMON_NOTE + "node.evaluate_for_platform is abstracted as an arbitrary truth value (C02/C03); Visit enum members by integer value; SourceTree.insert / Node.visit only inside the bounded composition.",
+    technique=TECH,
+)
+CHECKS["C04"] = dict(
+    category="proof",
+    text=("Platform.find_include_file is proved to return the first existing candidate in compiler search order "
+          "(including directory first for the quote form, then the include paths; include paths only for the angle "
+          "form) for every search path, file system and memo content, independently of earlier lookups: the memo "
+          "invariant 'every cached answer is the resolution of its own (name, directory, form) key' is required and "
+          "re-established; the once-list (add_include_to_skip / process_include) and add_include_path are proved "
+          "against set/sequence specs. The attribution of included files (IncludeNode, forced includes in find) is "
+          "not under contract yet."),
+    design_ref="DESIGN.md section 5 C04, section 9",
+    note=COMMON_NOTE + "A4 static file system; os.path.join/abspath/isfile are uninterpreted pure functions/predicates of the name.",
+    technique=TECH,
+)
+CHECKS["C12"] = dict(
+    category="proof",
+    text=("ArgumentParser.__init__ is proved, for every compiler table (including alias cycles and dangling targets): "
+          "recognition by basename, transitive alias resolution to the end of the alias chain, exactly one diagnostic "
+          "and the empty compiler for unknown names / loops / dangling targets, no exception, and termination "
+          "(decreases card(table) - len(chain)). PreprocessorConfiguration._update is proved to append exactly the "
+          "mode's/pass's three lists. parse_args (pass/mode composition through argparse), the custom actions and "
+          "_load_compilers are not under contract."),
+    design_ref="DESIGN.md section 5 C12, section 9",
+    note=COMMON_NOTE + "A4 os.path.basename pure; the compiler table is assumed loaded and non-empty; alias_of is None or a non-empty name; A7 logging.",
+    technique=TECH,
+)
+
 NA = {}
 
 DEFAULT_NA = "check not built yet (work in progress; see DESIGN.md section 5 for the plan)"
